@@ -41,8 +41,10 @@ def main():
     wt = "/tmp/vs_" + sid
     subprocess.run(["git", "-C", "/repo", "worktree", "remove", "--force", wt], capture_output=True)
     shutil.rmtree(wt, ignore_errors=True)
-    subprocess.check_call(["git", "-C", "/repo", "worktree", "add", "--detach", wt, "HEAD"], stdout=subprocess.DEVNULL, stderr=subprocess.DEVNULL)
-    res = {"id": sid, "property": prop}
+    # the commit the change was written against (a file `base` in the delivery; default: the current HEAD)
+    base = open(os.path.join(d, "base")).read().strip() if os.path.exists(os.path.join(d, "base")) else "HEAD"
+    subprocess.check_call(["git", "-C", "/repo", "worktree", "add", "--detach", wt, base], stdout=subprocess.DEVNULL, stderr=subprocess.DEVNULL)
+    res = {"id": sid, "property": prop, "base": subprocess.check_output(["git", "-C", wt, "rev-parse", "--short", "HEAD"], text=True).strip()}
     try:
         rc, out = sh("git apply --whitespace=nowarn %s/patch.diff" % d, wt)
         res["patch_applies"] = rc == 0
@@ -118,7 +120,7 @@ def finish(res, d, wt, meta):
             "existing_suite_with_patch": "cargo test --workspace --no-fail-fast --offline => %d passed, 0 failed" % res.get("suite_passed_count", 0),
             "demo_with_patch": "FAILS (%s)" % meta["demo_cmd"],
             "demo_without_patch": "PASSES",
-            "repo_head": subprocess.check_output(["git", "-C", "/repo", "rev-parse", "--short", "HEAD"], text=True).strip(),
+            "repo_head": res.get("base"),
         }
         m["our_check"] = {"detected": res.get("check_detected"), "exit": res.get("check_exit"), "violations": res.get("check_violations"),
                           "other_checks_firing": res.get("other_checks_firing")}
